@@ -140,4 +140,32 @@ PROPS = {
             rap("write", "^TestC13Write$", 4000, 40000, 2, 16),
         ],
     },
+    "C04": {
+        "level": "exploration",
+        "level_text": "generated call histories (valid and invalid calls) with the invariant evaluated after every call against an independent "
+                      "ISO 13818-1 packet decoder and the byte counts observed by the underlying writer; shrinks to a few calls",
+        "level_note": "trusts harness/ref/ts.go (strict decoder) and the reference PES sizes; packets pushed through WritePacket are checked at packet "
+                      "level only (their inner consistency is the caller's)",
+        "technique": "rapid stateful generation of Muxer call histories + per-call invariant against an independent TS decoder",
+        "rule": "rapid-generated operation histories (1..40 calls); non-trivial = a rejected call followed by a successful write and a unit "
+                "ending within 2 bytes of a packet boundary; distinct by history (operations, arguments' sizes, results)",
+        "assumptions": ["WritePacket PIDs (0x1F00-0x1F0F) are disjoint from elementary stream PIDs"],
+        "units": [
+            rap("history", "^TestC04History$", 2500, 25000, 4, 16),
+        ],
+    },
+    "C05": {
+        "level": "exploration",
+        "level_text": "generated call histories biased to counter wrap-around, failing table generation and adaptation fields without room for "
+                      "the PES header; continuity checked per PID on the writer's bytes with an independent TS decoder",
+        "level_note": "trusts harness/ref/ts.go; tracking of an elementary PID restarts when the stream is (re-)added; PIDs fed through WritePacket are "
+                      "the caller's and are not tracked",
+        "technique": "rapid stateful generation of Muxer call histories + continuity invariant over the decoded output",
+        "rule": "rapid-generated operation histories (1..60 calls, WriteData-heavy); non-trivial = > 16 payload packets on a PID, or a failed table "
+                "generation followed by a successful one, or an adaptation field leaving no room for the PES header; distinct by history",
+        "assumptions": [],
+        "units": [
+            rap("history", "^TestC05History$", 2000, 20000, 4, 16),
+        ],
+    },
 }
